@@ -12,14 +12,30 @@ from lib import Ctx, VERIF, WORK
 PID = "C15"
 
 
-def classify_deadlock(sig_stable, base_idx):
-    """(explained?, finding class, the baseline edges it uses)"""
+def classify_deadlock(sig_stable, base_idx, hold_idx=None):
+    """(explained?, finding class, the baseline edges it uses).  A deadlock is explained when it contains a recorded against-order edge and
+    (strict, hold_idx given) EVERY hold-and-wait edge of its blocked threads is in the pinned hold-and-wait graph of the baseline."""
     edges = lc.deadlock_edges(sig_stable)
     used = sorted(e for e in edges if e in base_idx)
     if not used:
         return False, None, []
+    if hold_idx is not None and any(e not in hold_idx for e in edges):
+        return False, None, sorted(e for e in edges if e not in hold_idx)
     classes = sorted(set(lc.edge_finding_class(e) for e in used))
     return True, classes, used
+
+
+PIN_SEED = 20261002
+
+
+def passes_for(tier, ops):
+    """(tag, tuples, pre-emption bound, limit, random schedules, pinned).  Pinned passes use a fixed seed: they are deterministic, and every
+    hold-and-wait edge of a deadlock found there must be in the pinned graph of the baseline (strict)."""
+    if tier == "thorough":
+        tuples = lc.thorough_pairs(ops)
+        return [("pb3", tuples, 3, 150, 0, True), ("random", tuples, 0, 0, 60, False), ("triples", lc.TRIPLES, 2, 600, 600, True),
+                ("random-long", lc.QUICK_PAIRS, 0, 0, 350, False)]   # > 10^4 random schedules
+    return [("pb2", lc.QUICK_PAIRS, 2, 40, 0, True), ("random", lc.QUICK_PAIRS, 0, 0, 12, False), ("triples", lc.TRIPLES[:4], 1, 100, 500, True)]
 
 
 def replay_known(ctx, avh, sites, base_idx, prop_viol):
@@ -109,12 +125,10 @@ def run(tier, seed):
             replay_known(ctx, avh, sites, base_idx, prop_viol)
             # ---- exploration
             ops = lc.ops_list(avh)
-            if tier == "thorough":
-                tuples = lc.thorough_pairs(ops)
-                passes = [("pb3", tuples, 3, 150, 60), ("triples", lc.TRIPLES, 2, 300, 300),
-                          ("random-long", lc.QUICK_PAIRS, 0, 0, 350)]   # 32 pairs x 350 > 10^4 random schedules
-            else:
-                passes = [("pb2", lc.QUICK_PAIRS, 2, 40, 12), ("triples", lc.TRIPLES[:3], 1, 30, 10)]
+            # passes without a random part are seed-independent: there every hold-and-wait edge of a deadlock must be in the pinned graph
+            # (STRICT); in the random passes a deadlock only has to contain a recorded against-order edge
+            passes = passes_for(tier, ops)
+            hold_idx = lc.hold_edge_index(base)
             # a new edge: put the pairs of the regressed instance in front
             extra = []
             seen_inst, picked = set(), []
@@ -130,10 +144,10 @@ def run(tier, seed):
                     if only == "all" or shape in only.split(","):
                         extra.append((shape, name, o))
             if extra:
-                passes.insert(0, ("search-new-edge", extra[:400], 3, 200, 60))
+                passes.insert(0, ("search-new-edge", extra[:400], 3, 200, 60, False))
             total_runs, total_dl, unexplained, by_class, pairs_with_dl = 0, 0, [], {}, 0
-            for tag, tuples, k, limit, nrand in passes:
-                recs, errs = lc.explore(avh, list(tuples), k, limit, nrand, seed, "c15" + tag)
+            for tag, tuples, k, limit, nrand, pinned in passes:
+                recs, errs = lc.explore(avh, list(tuples), k, limit, nrand, PIN_SEED if pinned else seed, "c15" + tag)
                 ctx.oblige("scheduler:%s exploration ran (%d tuples)" % (tag, len(tuples)), not errs and len(recs) > 0, "; ".join(errs[:2]))
                 for rec in recs:
                     total_runs += rec["runs"]
@@ -143,7 +157,7 @@ def run(tier, seed):
                         unexplained.append((rec, "", "a thread ran for 20 s without reaching a scheduling point"))
                     for s, sig in rec["dlsig"]:
                         st = lc.stable(sig, sites)
-                        ok, classes, used = classify_deadlock(st, base_idx)
+                        ok, classes, used = classify_deadlock(st, base_idx, hold_idx if pinned and hold_idx else None)
                         if ok:
                             for c in classes:
                                 by_class[c] = by_class.get(c, 0) + 1
@@ -208,3 +222,34 @@ def replay(path):
                 print(l)
             return 1 if res.get("deadlock") else 0
     return run("quick", 1)
+
+
+if __name__ == "__main__":
+    import sys
+    if len(sys.argv) > 1 and sys.argv[1] == "baseline-deadlocks":
+        # maintenance: hold-and-wait edges that occur in the deadlocks of the seed-independent passes of both tiers on the current tree
+        # but in no single-thread trace (a thread that continues after a failed try takes paths the traces do not show)
+        ctx = Ctx("c15-tool", "quick", 1)
+        avh = lib.harness_build(ctx, hooks=True)
+        res = lc.analyse(ctx, avh, "quick", 1, "c15tool")
+        sites = lc.LAST_SITES
+        base = lc.load_baseline()
+        have = lc.hold_edge_index({"hold_edges": base.get("hold_edges", [])})
+        ops = lc.ops_list(avh)
+        extra = set()
+        for tier in ("quick", "thorough"):
+            for tag, tuples, k, limit, nrand, pinned in passes_for(tier, ops):
+                if not pinned:
+                    continue
+                recs, errs = lc.explore(avh, list(tuples), k, limit, nrand, PIN_SEED, "c15bd" + tag)
+                assert not errs, errs
+                for rec in recs:
+                    for s_, sig in rec["dlsig"]:
+                        for e in lc.deadlock_edges(lc.stable(sig, sites)):
+                            if e not in have:
+                                extra.add("%s | %s | %s" % e)
+        base["c15_extra_deadlock_edges"] = sorted(extra)
+        json.dump(base, open(lc.BASELINE, "w"), indent=1, sort_keys=True)
+        print("extra deadlock edges: %d" % len(extra))
+        for e in sorted(extra):
+            print("  ", e)
